@@ -289,7 +289,10 @@ def call_builtin(ex, e, st, name, desc):
         if ex.track_keys:
             st.set_field('keys', z3.Store(st.field('keys'), a, S.empty_seq()))
         return val(st, V(r, S.Dict(S.Any, S.Any)))
-    if name in ('min', 'max') and len(args) == 2 and all(a.ty.kind == 'int' for a in args):
+    if name in ('min', 'max') and len(args) == 2 and all(a.ty.kind in ('int', 'any') for a in args):
+        for a_ in args:
+            if a_.ty.kind == 'any':
+                ex.safety(st, 'TypeError', f'{name}() of a non-int ({desc})', S.is_int(a_.t))
         a, b = S.ival(args[0].t), S.ival(args[1].t)
         return val(st, V(S.mk_int(z3.If((a <= b) if name == 'min' else (a >= b), a, b)), S.Int))
     if name == 'abs' and len(args) == 1 and args[0].ty.kind == 'int':
@@ -408,6 +411,11 @@ def call_method(ex, e, st, recv, meth, desc):
         return r if isinstance(r, list) else val(st, r)
     if k == 'fn':
         raise Unsupported('method call on a callable: ' + desc)
+    if k == 'any' and meth in ('startswith', 'endswith', 'find', 'lower', 'upper', 'strip', 'split', 'replace', 'isdigit'):
+        # a string method on a value of unknown static type: TypeError/AttributeError unless it is a str
+        ex.safety(st, 'AttributeError', f'.{meth} on a non-str ({desc})', S.is_str(recv.t))
+        recv = V(recv.t, S.Str)
+        k = 'str'
     args, kwargs = eval_args(ex, e, st)
     ty = ex.obj_class(recv, st, desc)
     a = S.addr(recv.t) if k in ('list', 'dict', 'set') else None
@@ -505,7 +513,7 @@ def dict_method(ex, st, recv, ty, a, meth, args, kwargs, desc):
         return V(t, ty.v)
     if meth in ('keys', 'values') and not args:
         r = ex.alloc(st, 'list')
-        seq = enum_of_dom(ex, recv, st)
+        seq = st.sel('keys', a) if ex.track_keys else enum_of_dom(ex, recv, st)
         if meth == 'values':
             raise Unsupported('dict.values() as a value')
         st.set_field('list', z3.Store(st.field('list'), S.addr(r), seq))
